@@ -105,7 +105,11 @@ def run(ctx):
     ctx.ob('C02.stream-next', 'USBDataPacketReceiver.stream.valid', len(sv) == 1 and q.state_of(sv[0]) == R and not sv[0].guard, None, 'stream.valid marks the reporting state')
     byte_sites = [chain[0], chain[1]] if len(chain) == 2 else []
     for idx, (st, guard, full) in enumerate([(e.state, q.atoms(e), i == 1) for i, e in enumerate(byte_sites)] + [((fsm.id, R), {(RXV, True)}, True)]):
-        here = {a.lhs.canon(): a.rhs.canon() for a in ir.assigns if a.state == st and q.atoms(a) == guard and a.domain != 'comb'}
+        here = {}
+        for a in ir.assigns:
+            if a.state == st and q.atoms(a) == guard and a.domain != 'comb' and isinstance(a.rhs, E):
+                for k_, v_ in q.split_parts(a):            # `hold.eq(Cat(lo, hi))` and two slice assignments: one form
+                    here[k_] = v_.canon()
         want = {hold + '[8:16]': 'self.utmi.rx_data', 'last_byte_crc': 'self.data_crc.crc'}
         if full:
             want.update({hold + '[0:8]': hold + '[8:16]', crcreg: 'last_byte_crc'})
